@@ -44,6 +44,7 @@ def run(tier):
     clause_e(P, rep, rows1)
     clause_g(P, rep)
     clause_g_segments(P, rep)
+    org_zero(P, rep)
     # h. an `.org` (or segment switch) written inside a macro body keeps its effect when the expansion is spliced into the output
     import rules_C09
     rules_C09.splice_headers(P, rep, "C02.h")
@@ -569,6 +570,42 @@ def clause_g(P, rep):
                ".%s can succeed without any effect (%d of %d success paths): the operand is silently dropped and everything after it is placed as if the "
                "directive were not there — operand shapes: %s" % (d.lower(), len(silent), len(oks), sorted(shapes)[:2]),
                detail={"silent paths": len(silent), "shapes": sorted(shapes)})
+
+
+def org_zero(P, rep):
+    """`.org N` makes the next item land at N - for N = 0 as well.  The passes keep a segment's start as a plain number in which 0 stands
+    for `no .org`: pass 1 branches on `address == 0` and then goes on at the running counter, so an `.org 0` that was written cannot
+    be told from none."""
+    fn = "builder::pass1::pass_1_internal"
+    if fn not in P.body:
+        rep.unprovable("C02.g|org-zero", "pass_1_internal not found")
+        return
+    M = absint.Machine(P, max_depth=3, loop_limit=1)
+    paths = M.explore(fn, M.arg_unknowns(fn))
+    sentinel = any(re.match(r"^\(segment\*\.address == 0\)$", sx.show(e)) and t for p in paths for e, t in p.conds)
+    aty = P.tys("parser::parse", 0) if False else None
+    fields = {f["name"]: f for f in P.lib.adts["parser::Segment"]["variants"][0]["fields"]}
+    rep.ob("C02.g|org-zero", not sentinel,
+           "a segment's start is used as stored, whatever its value" if not sentinel else
+           "pass 1 takes a stored start address of 0 for `no .org` and goes on at the running counter: `nop / .org 0 / x: nop` gives x = 1 and no overlap error, `.eseg / .db 1 / .org 0 / e: .db 2` puts e at 1")
+
+
+def byte_operand_dropped(P, rep, key, consequence):
+    """The same decision as C02.g|byte under another property's key: `.byte` with an operand that is not a number literal succeeds
+    without any effect.  `consequence` says what that means for the property at hand."""
+    import rules_C08
+    fn = "directive::Directive::parse"
+    dv = rules_C08.dvariants(P)
+    inv = {n: d for d, n in dv.items()}
+    M = absint.Machine(P, max_depth=4, opaque={"expr::Expr::run", "parser::parse_file_internal", "parser::ParseContext::push_to_last",
+                                               "parser::ParseContext::last_segment", "parser::ParseContext::add_segment"})
+    paths = M.explore(fn, M.arg_unknowns(fn), doms={S("self*#d", 64, True): sx.dom_set([inv["Byte"]])})
+    oks = [p for p in paths if p.exit == "Ok"]
+    silent = [p for p in oks if not any(e[0] == 'call' and e[1].endswith("::push_to_last") and "ReserveData" in " ".join(e[2]) for e in p.events)]
+    rep.ob(key, bool(oks) and not silent,
+           ".byte: every success path pushes a reservation; an operand that cannot be used is an error" if oks and not silent else
+           ".byte can succeed without any effect (%d of %d success paths: the operand is not a number literal): %s" % (len(silent), len(oks), consequence),
+           detail={"silent paths": len(silent)})
 
 
 def clause_g_segments(P, rep):
